@@ -20,6 +20,7 @@ pub mod c16;
 pub mod c17;
 pub mod c18;
 pub mod c19;
+pub mod c19r;
 pub mod c20;
 pub mod hist;
 
